@@ -774,7 +774,9 @@ func (c *Conn) releaseStream(call *callReq) {
 		call.timer.Stop()
 	}
 
-	c.streams.Clear(call.streamID)
+	if atomic.CompareAndSwapInt32(&call.released, 0, 1) {
+		c.streams.Clear(call.streamID)
+	}
 
 	if call.streamObserverContext != nil {
 		call.streamObserverEndOnce.Do(func() {
@@ -805,6 +807,11 @@ type callReq struct {
 	// streamObserverEndOnce ensures that either StreamAbandoned or StreamFinished is called,
 	// but not both.
 	streamObserverEndOnce sync.Once
+
+	// released is set by the first releaseStream of this call: exec and recv
+	// may both reach it (a frame that arrives on the stream of a request that
+	// is given up before it is written), the stream id is cleared once.
+	released int32
 }
 
 type callResp struct {
